@@ -21,9 +21,10 @@ func createDynForWindowedThroughputSampler(c *config.WindowedThroughputSamplerCo
 	clusterSize := 1 // Will be updated by SetClusterSize if needed
 
 	dynsamplerInstance := &dynsampler.WindowedThroughput{
-		GoalThroughputPerSec:      float64(c.GoalThroughputPerSec) / float64(clusterSize),
-		UpdateFrequencyDuration:   time.Duration(c.UpdateFrequency),
-		LookbackFrequencyDuration: time.Duration(c.LookbackFrequency),
+		GoalThroughputPerSec: float64(c.GoalThroughputPerSec) / float64(clusterSize),
+		// 0 selects the defaults; a negative duration would panic in time.NewTicker
+		UpdateFrequencyDuration:   max(time.Duration(c.UpdateFrequency), 0),
+		LookbackFrequencyDuration: max(time.Duration(c.LookbackFrequency), 0),
 		MaxKeys:                   maxKeys,
 	}
 	dynsamplerInstance.Start()
